@@ -4,13 +4,17 @@
 use monitor::*;
 use std::time::Instant;
 
+
+mod c01;
 mod c15;
+mod registry;
 
 fn main() {
     let args = Args::parse();
     let t0 = Instant::now();
     let (items, rule): (Vec<Item>, &str) = match args.prop.as_str() {
         "C15" => (c15::items(&args), c15::RULE),
+        "C01" => (c01::items(&args), c01::RULE),
         p => panic!("mon_ff does not serve property {p}"),
     };
     let rep = run_items(&args, items);
